@@ -12,11 +12,11 @@ MANIFEST = {
             "math-function families, Section/ForRange/declaration statements) and the formatter's design rule 'parenthesise child iff "
             "child.precedence >= parent.precedence' over the lnodes.PRECEDENCE table read from the code at check time. (0) FormatMC: for every "
             "well-typed tree TLC enumerates (every operator x operand position x child [x grandchild in the thorough tier], leaf pairs, n-ary "
-            "arity 1-3, conditional/boolean nesting) Parse(Format(t)) must match the meaning of t. (i) the same trees are built as real lnodes "
+            "arity 1-3, conditional/boolean nesting, every math function, a MultiIndex - one operand node whose meaning is its flattened index - as a direct operand of every arithmetic/comparison/call shape in every position and inside subscript arithmetic) Parse(Format(t)) must match the meaning of t. (i) the same trees are built as real lnodes "
             "objects and printed by the real C formatter for float32/float64/complex64/complex128 and by the real numba formatter, the text is "
             "tokenised by maximal munch and FormatConform (TLC) parses the tokens and compares with the tree exported from the real object. "
             "(ii) the same for every top-level statement (declarations with initialiser lists, sections, loop nests, assignments) of every kernel "
-            "AST the real pipeline generates for a corpus of forms (thorough: all demo/*.py, four scalar types). Literal clause: every printed "
+            "AST the real pipeline generates for a corpus of forms chosen to reach the code paths of definitions.py/access.py/integral_generator.py/expression_generator.py (sum-factorised kernels on quadrilateral/hexahedron with scalar and blocked tensor-product coefficients of degree 1-2, part=diagonal, several quadrature rules per kernel, expressions at cell and facet points, DG0/quadrature/constant tables, interior facets, geometry quantities, manifolds, Piola maps, conditionals, math functions; thorough: also all demo/*.py, engine S4's kernel corpus, four scalar types). Literal clause: every printed "
             "floating literal must read back within one ulp (exact rational comparison). Negative control in every run: recorded streams with "
             "one corrupted token must be rejected by TLC.",
     "design_ref": "DESIGN.md section 4 C16, section 5 (literal clause), section 7 (well-typedness)",
